@@ -50,7 +50,7 @@ def scan_trusted(text):
     return sorted(set(found))
 
 
-def run_verus_unit(uname, workdir, prop=None):
+def run_verus_unit(uname, workdir, prop=None, tier='quick'):
     """build + verify one unit; returns a result dict"""
     mod = importlib.import_module('vx.units.' + uname)
     res = dict(unit=uname, engine='verus', obligations={}, failures=[], undecided=[], trusted=[], fns={},
@@ -197,6 +197,19 @@ def run_verus_unit(uname, workdir, prop=None):
             res['undecided'].append('vacuity guard: unit has no canary')
     # an obligation that belongs to a function whose SMT run did not happen is not discharged
     res['verified_fns'] = sum(1 for f in fn_status.values() if f.get('success'))
+    # thorough tier: proof stability -- the same unit under two more solver seeds; a proof that holds under one seed and not under
+    # another is reported as unstable (UNDECIDED), never as a violation
+    if tier == 'thorough' and not res['undecided'] and os.environ.get('VERIF_STABILITY', '1') != '0':
+        base_failed = {f['obligation'] for f in res['failures']}
+        for seed_ in (7, 1234):
+            r2 = run_verus(path, rlimit=getattr(mod, 'RLIMIT', None), extra=list(getattr(mod, 'VERUS_ARGS', ())) + ['--smt-option', f'smt.random_seed={seed_}'],
+                           multiple_errors=getattr(mod, 'MULTIPLE_ERRORS', 10))
+            res['solver_s'] += (r2['json'] or {}).get('times-ms', {}).get('smt', {}).get('total', 0) / 1000.0 if r2['json'] else 0
+            vr = (r2['json'] or {}).get('verification-results') or {}
+            base = res.get('verus_summary') or {}
+            if r2['json'] is None or vr.get('errors') != base.get('errors') or vr.get('verified') != base.get('verified'):
+                res['undecided'].append(f'unstable proof: solver seed {seed_} gives {vr} where the default seed gives {base}')
+        res['stability_seeds'] = [0, 7, 1234]
     return res
 
 
@@ -232,7 +245,7 @@ def main(argv=None):
     try:
         units = [u for u in pdef.get('verus', []) if not a.unit or u in a.unit]
         with cf.ThreadPoolExecutor(max_workers=8) as ex:
-            futs = {ex.submit(run_verus_unit, u, scratch, prop): u for u in units}
+            futs = {ex.submit(run_verus_unit, u, scratch, prop, a.tier): u for u in units}
             kfut = None
             if not a.no_kani and pdef.get('kani'):
                 from kx import kani
